@@ -117,6 +117,8 @@ type c19Sys struct {
 	ops   []c19Op
 	newT  *j.Type
 	baseT *j.Type
+
+	lastKind, lastName string
 }
 
 func c19Res(key string) j.Resource {
@@ -142,6 +144,9 @@ func c19Res(key string) j.Resource {
 			true, "4", map[string]any{"a": "w", "c": true, "extra": []string{"e"}})
 	case "R5conflict":
 		return mk(TypeD{Name: "t", Attrs: []AttrD{{"a", kInt}}, Rels: []RelD{{"one", false, "u", ""}}}, true, "5", map[string]any{"a": 5, "one": []string{"z"}})
+	case "R0noid":
+		// a resource that has not been given an ID yet
+		return mk(c19Base, true, "", map[string]any{"a": "noid"})
 	case "R6wrapped":
 		return mk(c19Base, false, "6", map[string]any{"a": "wr", "b": Ptr(int(6)), "many": []string{"q"}})
 	}
@@ -150,7 +155,7 @@ func c19Res(key string) j.Resource {
 
 func c19Ops() []c19Op {
 	var ops []c19Op
-	for _, k := range []string{"R1", "R2", "R1dup", "R3narrow", "R4wide", "R5conflict", "R6wrapped"} {
+	for _, k := range []string{"R1", "R2", "R1dup", "R3narrow", "R4wide", "R5conflict", "R6wrapped", "R0noid"} {
 		k := k
 		ops = append(ops, c19Op{name: "Add(" + k + ")", do: func(y *c19Sys) error {
 			r := c19Res(k)
@@ -179,7 +184,7 @@ func c19Ops() []c19Op {
 		}
 		return nil
 	}})
-	for _, id := range []string{"1", "2", "9"} {
+	for _, id := range []string{"1", "2", "9", ""} {
 		id := id
 		ops = append(ops, c19Op{name: "Remove(" + id + ")", do: func(y *c19Sys) error {
 			y.col.Remove(id)
@@ -298,6 +303,10 @@ func c19Ops() []c19Op {
 			for _, e := range y.m.list {
 				delete(e.vals, "b")
 			}
+			// editing the type behind the collection's back is not one of the statement's
+			// operations: when the stored values of the removed attribute go is not specified,
+			// so the edit is followed by a read (after which they are gone in any case)
+			y.observe()
 			return nil
 		}},
 		c19Op{name: "original R1 .Set(a) .Set(many) .Set(id)", do: func(y *c19Sys) error {
@@ -315,6 +324,8 @@ func c19Ops() []c19Op {
 			}
 			return nil
 		}},
+		// reading is an operation too (Len, At, Resource, GetType, Get of every field)
+		c19Op{name: "read everything", do: func(y *c19Sys) error { y.observe(); return nil }},
 	)
 	return ops
 }
@@ -328,11 +339,12 @@ func c19NewSys() *c19Sys {
 }
 
 func (y *c19Sys) Key() string {
+	snap := mc.Snap(y.col, y.newT != nil && y.col.Type == y.newT)
 	var b strings.Builder
 	for _, k := range SortedKeys(y.orig) {
 		b.WriteString(k + ":" + c18Read(y.orig[k]) + ";")
 	}
-	return mc.Snap(y.col, y.newT != nil && y.col.Type == y.newT) + b.String()
+	return snap + b.String()
 }
 
 func (y *c19Sys) observe() (what, msg string) {
@@ -447,8 +459,19 @@ func (y *c19Sys) Apply(op int) (fails []mc.Violation, fatal bool) {
 	if complaint != nil {
 		fails = append(fails, mc.Violation{Sig: "C19:" + o.name + ":error-mismatch", Msg: complaint.Error()})
 	}
-	if what, msg := y.observe(); what != "" {
-		fails = append(fails, mc.Violation{Sig: "C19:" + opKind + ":" + what, Msg: "after " + o.name + ": " + msg})
+	y.lastKind, y.lastName = opKind, o.name
+	return
+}
+
+// Final: the collection is read once, after the last operation of the history
+// (reading is an operation of its own: "read everything").
+func (y *c19Sys) Final() (fails []mc.Violation, fatal bool) {
+	var what, msg string
+	if p := Try(func() { what, msg = y.observe() }); p != "" {
+		return []mc.Violation{{Sig: "C19:" + y.lastKind + ":read-panic", Msg: "reading the collection after " + y.lastName + " panicked: " + p}}, true
+	}
+	if what != "" {
+		fails = append(fails, mc.Violation{Sig: "C19:" + y.lastKind + ":" + what, Msg: "after " + y.lastName + ": " + msg})
 	}
 	return
 }
@@ -467,7 +490,7 @@ func c19BFS(c *Ctx) *mc.BFS {
 func init() {
 	Register(&Prop{
 		ID: "C19",
-		Rule: "Engine B: breadth-first search over ALL histories (depth <= 4 quick / 5 thorough) of 23 operations on a real SoftCollection whose type has been set: Add of 7 resources (same type, second id, duplicate id, narrower, wider, conflicting kind/cardinality for the same field name, wrapped struct), Remove(1|2|9), AddAttr(new|duplicate|invalid), AddRel(new|duplicate), SetType(same pointer|new type), Set on the original resources after they were added; de-duplicated by deep snapshot. After every step Len, At(-1..Len), Resource(id), GetType and Get of every current field of every stored resource are compared with a list model (order, ids, well-typed values snapshotted at Add, zero for later fields). Every state beyond the initial one is non-trivial",
+		Rule: "Engine B: breadth-first search over ALL histories (depth <= 4 quick / 5 thorough) of 26 operations on a real SoftCollection whose type has been set: Add of 8 resources (same type, second id, duplicate id, narrower, wider, conflicting kind/cardinality for the same field name, wrapped struct, empty id), Remove(1|2|9|\"\"), AddAttr(new|duplicate|invalid), AddRel(new|duplicate), SetType(same pointer|new type), Set on the original resources after they were added, reading everything; de-duplicated by deep snapshot. Nothing is read between the operations of a history; after its last step Len, At(-1..Len), Resource(id), GetType and Get of every current field of every stored resource are compared with a list model (order, ids, well-typed values snapshotted at Add, zero for later fields). Every state beyond the initial one is non-trivial",
 		Assumptions: []string{"after SetType(new type) values of fields that keep name and kind are expected to be retained (natural reading; only the field set is stated)", "only later Set calls on the original are judged, not in-place mutation of its slices"},
 		Harnesses: []Harness{{Name: "C19/histories",
 			Custom: func(c *Ctx) {
